@@ -11,7 +11,7 @@ import (
 
 func relayProfileC06(tier string) RelayProfile {
 	p := RelayProfile{
-		Protos:         []string{"ts", "ts", "wsts", "flv"},
+		Protos:         []string{"ts", "ts", "wsts", "flv", "rtsp", "rtspudp"},
 		MaxUnits:       90,
 		MaxCons:        4,
 		Republish:      0,
@@ -105,6 +105,7 @@ func CheckC06(k *sim.Kernel, rr *RelayRun) {
 			k.Probe("c06_ts_consumers")
 		}
 	}
+	checkC06Rtsp(k, rr)
 	if !rr.Plan.Conf.HlsEnable {
 		return
 	}
@@ -141,6 +142,117 @@ func CheckC06(k *sim.Kernel, rr *RelayRun) {
 	}
 }
 
+// checkC06Rtsp: the RTSP / RTP leg. An independent depacketiser recovers NAL units and audio frames from what each
+// RTSP player received (interleaved TCP or UDP).
+func checkC06Rtsp(k *sim.Kernel, rr *RelayRun) {
+	for ci, c := range rr.Cons {
+		if c.Rtsp == nil || !c.Joined {
+			continue
+		}
+		name := fmt.Sprintf("cons%d(%s)", ci, c.Plan.Proto)
+		var pub *PubState
+		npub := 0
+		for _, p := range rr.Pubs {
+			if p.Plan.Stream == c.Plan.Stream && p.Actor != nil {
+				pub = p
+				npub++
+			}
+		}
+		if pub == nil || npub != 1 {
+			continue // re-published streams: which incarnation an RTSP player describes is judged by C16
+		}
+		a := c.Rtsp
+		// the property speaks about streams with their sequence headers; a stream that never sent one for a track
+		// it carries cannot be described in an SDP
+		var haveVS, haveAS, haveV, haveA bool
+		for i := range pub.Units {
+			switch pub.Units[i].Kind {
+			case media.KVideoSeq:
+				haveVS = true
+			case media.KAudioSeq:
+				haveAS = true
+			case media.KVideo:
+				haveV = true
+			case media.KAudio:
+				haveA = true
+			}
+		}
+		if (haveV && !haveVS) || (haveA && !haveAS) {
+			continue
+		}
+		if a.Failed != "" && a.DescribeOK {
+			k.Violate("C06.rtsp-session", "%s: the RTSP exchange failed after a successful DESCRIBE: %s (statuses %v)", name, a.Failed, a.Status)
+		}
+		if len(a.Rtp) == 0 {
+			continue
+		}
+		rc := ParseRtspSession(a)
+		if len(rc.Problems) > 0 {
+			k.Violate("C06.rtp-structure", "%s: %s", name, rc.Problems[0])
+		}
+		hevc := pub.Plan.VideoCodec == media.CodecHEVC
+		// parameter sets of every generation this incarnation published
+		var sets [][3][]byte
+		for i := range pub.Units {
+			u := &pub.Units[i]
+			if u.Kind != media.KVideoSeq || len(u.Msg.Payload) < 6 {
+				continue
+			}
+			var v, sp, pp []byte
+			var ok bool
+			if hevc {
+				v, sp, pp, ok = parseHvcC(u.Msg.Payload[5:])
+			} else {
+				sp, pp, ok = parseAvcC(u.Msg.Payload[5:])
+			}
+			if ok {
+				sets = append(sets, [3][]byte{v, sp, pp})
+			}
+		}
+		var sdpSet [3][]byte
+		if t := rc.VTrack; t != nil && len(sets) > 0 {
+			matched := false
+			for _, st := range sets {
+				probe := &RtspContent{VTrack: t}
+				_ = probe
+				b64 := func(b []byte) string { return base64Std(b) }
+				if !hevc && t.Fmtp["sprop-parameter-sets"] == b64(st[1])+","+b64(st[2]) {
+					matched, sdpSet = true, st
+				}
+				if hevc && t.Fmtp["sprop-vps"] == b64(st[0]) && t.Fmtp["sprop-sps"] == b64(st[1]) && t.Fmtp["sprop-pps"] == b64(st[2]) {
+					matched, sdpSet = true, st
+				}
+			}
+			if !matched {
+				k.Violate("C06.sdp", "%s: the video parameter sets in the SDP (%v) are none of the %d sets the publisher sent", name, t.Fmtp, len(sets))
+			}
+			want := "H264"
+			if hevc {
+				want = "H265"
+			}
+			if t.Enc != want {
+				k.Violate("C06.sdp", "%s: SDP declares %s for a %s stream", name, t.Enc, want)
+			}
+		}
+		if t := rc.ATrack; t != nil && pub.Plan.AudioCodec == media.SoundAAC {
+			checkSdpAgainstPublished(k, name, &RtspContent{ATrack: t}, hevc, pub.Plan.AacSr, nil, nil, nil, true)
+		}
+		closedEarly := c.Left || c.Kicked || a.Closed
+		complete := !closedEarly && pub.Stopped && allProcessed(pub) && !pub.Actor.Closed && a.Ready
+		prob, nv, na := CompareRtspToPublished(rc, pub.Units, hevc, pub.Plan.AacSr, complete, sdpSet[1], sdpSet[2], sdpSet[0])
+		if prob != "" {
+			k.Violate("C06.rtsp-content", "%s: %s", name, prob)
+		}
+		if nv+na > 0 {
+			k.Probe("nontrivial")
+			k.Probe("c06_rtsp_consumers")
+			if c.Plan.Proto == "rtspudp" {
+				k.Probe("c06_rtsp_udp_consumers")
+			}
+		}
+	}
+}
+
 func allProcessed(p *PubState) bool {
 	if p.Actor == nil || len(p.Actor.Sent) != len(p.Units) {
 		return false
@@ -169,6 +281,8 @@ func checkPmtCodecs(k *sim.Kernel, name string, tc *TsContent, pub *PubState) {
 func genC06Plan(r *sim.Rng, tier string) RelayPlan {
 	pl := GenRelayPlan(r, relayProfileC06(tier))
 	pl.Conf.TsEnable = true
+	pl.Conf.RtspEnable = true
+	pl.Conf.RtspWaitKey = r.Bool(0.5)
 	pl.Conf.TsGopCap = 0 // a GOP cut at the cap makes the replay non-contiguous (judged by C02, not here)
 	pl.Conf.HlsEnable = r.Bool(0.7)
 	pl.Conf.HlsFragMs = []int{200, 500, 1000, 3000}[r.Intn(4)]
